@@ -8,6 +8,7 @@ import argparse
 import ast
 import copy
 import os
+import sys
 
 from dtsim import fs, resolver
 from dtsim.core import HarnessError, digest, load_doctrans, sha
@@ -268,6 +269,8 @@ def is_truth_target(op, kind, f):
 # --------------------------------------------------------------------- violations
 def viol(prop, oracle, op, detail, **sig):
     s = {"property": prop, "oracle": oracle, "op": op["op"]}
+    if sys.flags.optimize:
+        s["python_O"] = True
     if op["op"] == "sync":
         s["truth"] = op["truth"]
         s["via"] = op.get("via", "cli")
@@ -709,8 +712,8 @@ def oracles_sync_properties(op, S0, S1, out, stats):
     if out["status"] != "ok":
         v.append(viol("C14", "A-resolvable-rejected", op, "every address resolves, yet sync_properties failed: %s %s at %s" % (out.get("exc", out.get("code")), out.get("msg", "")[:160], out.get("site")),
                       exc=out.get("exc", "exit"), site=out.get("site"), **common))
-        if out.get("exc") not in ("AssertionError", "NotImplementedError"):
-            # those two are how sync_properties *reports* an address it cannot apply (C14's subject); anything else is an internal error
+        if out.get("exc") not in ("AssertionError", "NotImplementedError", "LookupError", "KeyError"):
+            # those are how sync_properties *reports* an address it cannot apply (C14's subject); anything else is an internal error
             v.append(viol("C20", "O4-accepted-not-carried-out", op, "accepted sync_properties invocation ended with %s at %s" % (out.get("exc", out.get("code")), out.get("site")),
                           exc=out.get("exc", "exit"), site=out.get("site"), **common))
         if S0.get(op["output"]) != S1.get(op["output"]):
